@@ -29,7 +29,10 @@ var badEntryTexts = [][]string{{"hello"}, {"25:00-26:00"}, {"1h60m"}, {" 1h"}, {
 
 func genC05(t *rapid.T, _ *evid.Rec) caseC05 {
 	c := caseC05{Env: gen.Env(t, 0)}
-	d := gen.Doc(t, gen.Opts{MaxRecords: 4, NearDay: c.Env.NowDay, NearSpan: 2, MaxEntries: 3, Controls: true})
+	d := gen.Doc(t, gen.Opts{MaxRecords: 4, NearDay: c.Env.NowDay, NearSpan: 2, MaxEntries: 3, Controls: true, TabSeparators: true})
+	if rapid.IntRange(0, 7).Draw(t, "edgeDates") == 0 {
+		gen.EdgeDates(t, &d)
+	}
 	if rapid.IntRange(0, 2).Draw(t, "ensureOpen") == 0 {
 		gen.EnsureOpenRange(t, &d, c.Env)
 	}
@@ -96,7 +99,36 @@ func checkC05(c caseC05) (Outcome, error) {
 		}
 	}
 	_, _, errsBefore := parser.NewSerialParser().Parse(text)
-	res, ierr := h.RunCmd(c.Cmd, file)
+	var res result
+	var ierr error
+	crashed := func() (crashed string) {
+		// a crash of the command is a failure with a non-zero exit status (Go exits with 2 on a
+		// panic): what C05 asks of it is that the file is untouched
+		defer func() {
+			if r := recover(); r != nil {
+				crashed = fmt.Sprint(r)
+			}
+		}()
+		res, ierr = h.RunCmd(c.Cmd, file)
+		return ""
+	}()
+	if crashed != "" {
+		out.Label("crash-treated-as-failure")
+		after, exists := h.ReadFile("f.klg")
+		if c.Missing {
+			if exists && c.Target == "" {
+				return out, fmt.Errorf("klog %s crashed (%s) after creating the file: %s", cmdString(c.Cmd), crashed, quoteShort(after))
+			}
+			return out, nil
+		}
+		if !exists || after != text {
+			return out, fmt.Errorf("klog %s crashed (%s) after changing the file\nbefore: %s\nafter:  %s", cmdString(c.Cmd), crashed, quoteShort(text), quoteShort(after))
+		}
+		if st, err := os.Stat(file); err != nil || !st.ModTime().Equal(old) {
+			return out, fmt.Errorf("klog %s crashed (%s) after rewriting the file (modification time changed)", cmdString(c.Cmd), crashed)
+		}
+		return out, nil
+	}
 	if ierr != nil {
 		out.Label("invocation-refused-by-cli") // e.g. an entry text with a blank continuation line
 		return out, nil
